@@ -562,7 +562,7 @@ PROPS["C19"] = {'coq': 'Properties/C19.v',
                  'entry points gsd_parser::parser::parse / parse_with_warnings (parse_from_file itself panics on Err by design)',
                  '64-bit usize']}
 
-PROPS["C03"] = {'claimed': False,
+PROPS["C03"] = {'claimed': True,
  'coq': 'Properties/C03.v',
  'domains': ['dp'],
  'nontrivial': ['dp:step:transmit', 'dp:step:reply', 'dp:step:timeout'],
@@ -576,15 +576,45 @@ PROPS["C03"] = {'claimed': False,
                   'reference slave coq/Model/Slave.v (environment, written against the PROFIBUS standard, not the crate) and its Rust twin in '
                   'harness/src/dp.rs, compared on every slave reply',
                   'the FdlApplication contract (C15) as the space of histories; harness emulates the FDL reply admission filter'],
- 'technique': 'phase 1: model + correspondence + executable monitor; one-step theorems',
- 'level_text': 'Phase 1: executable Coq model of the DP master tied by transcript replay, bring-up monitor (DpOracle.c03_monitor) run on every '
-               'implementation transcript; one-step theorems over all peripheral states: C03_set_prm_bytes, C03_chk_cfg_bytes, '
-               'C03_dx_only_in_data_exchange, C03_watchdog_factors. Missing for a claim: C03_order (the monitor accepts every history of the model).',
+ 'technique': 'Coq history theorems by invariant (bring-up monitors as functions of the wire trace; invariant relating pe_state to the phase; step '
+              'preservation for every call from every state satisfying it; lift by induction; master histories projected per peripheral) + one-step '
+              'theorems over all states with literal SAP numbers and PDU layout + watchdog factor search theorem + differential correspondence by '
+              'transcript replay + executable bring-up monitor (DpOracle.c03_monitor) on every implementation transcript',
+ 'level_text': 'Machine-checked theorems (Coq 8.16.1, closed under the global context; coq/Properties/C03.v, proofs in coq/Proofs/DpHistory.v, '
+               'C03Proofs.v, DpMasterHistory.v) about the model of src/dp/peripheral.rs + master.rs after the fixes F6 F10 F16 F17 F18. HISTORIES as '
+               'for C08: any calls on a freshly constructed peripheral (all reply kinds and statuses, lost requests / replies, user calls anywhere) '
+               'respecting the FdlApplication contract, all option values, every max_retry_limit >= 1; lifted to every peripheral of every history '
+               'of the DpMaster model (any peripheral count / storage) by C08_master_histories_project. MONITORS (functions of the wire trace): '
+               'bringup_phase = DpOracle.c03_step per peripheral (NeedDiag -> DiagAnswered -> PrmAcked -> CfgAcked -> Ready; Ready only by an '
+               'accepted diagnostics reply without Prm_Fault, Cfg_Fault, Station_Not_Ready, Prm_Req; Prm_Req resets to DiagAnswered from every phase '
+               'incl. Ready, fix F16; the events Offline / ParameterError / ConfigError reset to NeedDiag) and strict_phase (wire + Offline event '
+               'only, faults read from the diagnostics flags, plus reset Ready -> CfgAcked on a Data_Exchange reply "service not activated"). '
+               'THEOREMS: C03_order (whenever a request on the default SAP = Data_Exchange is emitted both monitors are in Ready; it is SRD-high '
+               'master -> peripheral) and C03_order_master; C03_each_request_in_order (every request is the one its phase calls for: Slave_Diag only '
+               'in NeedDiag / CfgAcked / Ready, Set_Prm only in DiagAnswered, Chk_Cfg only in PrmAcked, Data_Exchange only in Ready); '
+               'C03_invariant_relates_state_and_phase (pe_state <-> strict phase exactly; text phase equal or Ready while strict re-validates); '
+               'C03_requests_use_standard_saps (every request of every history: DSAP 60 / 61 / 62 from SSAP 62 as SRD low, or default SAP as SRD '
+               "high, literal numbers, from the master's to the peripheral's address) + C03_standard_saps_all_states (one-step, all states) + "
+               'C03_global_control_saps (127, DSAP 58, SSAP 62, SDN) + C03_diag_reply_saps (accepted only from SSAP 60 to DSAP 62, >= 6 bytes); '
+               'C03_options_faithful (in every history, for all option values: Set_Prm PDU = [0x80|sync 0x20|freeze 0x10|wd 0x08; f1; f2; min Tsdr; '
+               'ident hi; ident lo; groups] ++ user_parameters of the configured options, Chk_Cfg PDU = config bytes, Slave_Diag no payload) + '
+               'C03_set_prm_layout (all parameters / options) + C03_set_prm_is_bytes; kept: C03_set_prm_bytes, C03_chk_cfg_bytes, '
+               'C03_dx_only_in_data_exchange, C03_watchdog_factors (10 ms..650 s). A changed SAP constant breaks the proofs (seeded: '
+               'SAP_SLAVE_SET_PRM 61 -> 63 gives VIOLATION). Non-vacuity: C03_history_example.',
  'level_note': 'Trusted: Coq kernel, translator (gen/translate.py, gen/tr_dp.py), extraction + OCaml driver, Rust harness; hand model validated '
                'differentially, not verified.',
  'design_ref': 'DESIGN.md section 4, C03',
- 'assumptions': ['histories allowed by the FdlApplication contract (C15)',
-                 'bytes 0..255, addresses 0..125, max_retry_limit 1..15 (ParametersBuilder bounds)']}
+ 'assumptions': ['histories allowed by the FdlApplication contract (C15); peripherals added before the history starts',
+                 'max_retry_limit >= 1 (ParametersBuilder admits 1..15); runs that do not panic (panic freedom is C05)',
+                 'bytes 0..255, addresses 0..125'],
+ 'partial_gap': 'all planned C03 theorems are proved. Stated as coded: (a) a diagnostics reply with Prm_Req both restarts the bring-up and counts as '
+                'its answered diagnostics request (DESIGN 4.0); (b) in Ready a diagnostics reply with fault flags but without Prm_Req does not leave '
+                'Ready (the master does not consider the peripheral offline there); (c) with user_parameters / config = None the peripheral idles in '
+                "WaitForParam / WaitForConfig (observation O7); (d) the Data_Exchange PDU itself is C04's subject; (e) the requested watchdog time "
+                'is truncated to 10 ms (O3, stated in C03_watchdog_factors); fail_safe and max_tsdr are not part of Set_Prm in the code. Not proved '
+                'in Coq: that the executable oracle DpOracle.c03_monitor (on decoded transcripts) accepts every model transcript - bringup_phase '
+                'mirrors its per-peripheral transition function and the oracle runs on every implementation transcript; dp_add during a running '
+                'history is outside the master-level theorem.'}
 
 PROPS["C04"] = {'claimed': True,
  'coq': 'Properties/C04.v',
@@ -657,7 +687,7 @@ PROPS["C07"] = {'claimed': False,
  'assumptions': ['histories allowed by the FdlApplication contract (C15)',
                  'bytes 0..255, addresses 0..125, max_retry_limit 1..15 (ParametersBuilder bounds)']}
 
-PROPS["C08"] = {'claimed': False,
+PROPS["C08"] = {'claimed': True,
  'coq': 'Properties/C08.v',
  'domains': ['dp'],
  'nontrivial': ['dp:step:transmit', 'dp:step:reply', 'dp:step:timeout'],
@@ -671,15 +701,52 @@ PROPS["C08"] = {'claimed': False,
                   'reference slave coq/Model/Slave.v (environment, written against the PROFIBUS standard, not the crate) and its Rust twin in '
                   'harness/src/dp.rs, compared on every slave reply',
                   'the FdlApplication contract (C15) as the space of histories; harness emulates the FDL reply admission filter'],
- 'technique': 'phase 1: model + correspondence + executable wire monitor; one-step theorems',
- 'level_text': 'Phase 1: model, correspondence, frame-count-bit / retry monitor per destination (DpOracle.c08_monitor) on every implementation '
-               'transcript; one-step theorems over all states: C08_first_offline, C08_first_probe, C08_toggle_after_accept, C08_transmit_step. '
-               'Missing for a claim: the history theorems (monitor accepts every history of the model).',
+ 'technique': 'Coq history theorems by invariant (ghost wire monitor over the callback list: Inv init, step preservation for every call from every '
+              'state satisfying Inv, lift by induction; master histories projected to per-peripheral histories by a second invariant) about the '
+              'Gallina model of Peripheral / DpMaster + differential correspondence by transcript replay + executable wire monitor '
+              '(DpOracle.c08_monitor) on every implementation transcript',
+ 'level_text': 'Machine-checked theorems (Coq 8.16.1, closed under the global context; coq/Properties/C08.v, proofs in coq/Proofs/DpHistory.v, '
+               'C08Proofs.v, DpMasterHistory.v) about the model of src/dp/peripheral.rs + master.rs after the fixes F6 F10 F17 F18. HISTORIES: any '
+               'sequence of calls on a freshly constructed peripheral (transmit_telegram in any operating state, receive_reply with ANY telegram - '
+               'accepted, well-formed but rejected, SC, wrong SAPs / length -, time-out or silently dropped request, request_diagnostics(), pi_q '
+               'writes) that does not panic and respects the FdlApplication contract; every max_retry_limit >= 1 (1..15 included), every address, '
+               'all options. C08_master_histories_project: every contract-respecting history of the DpMaster model (callbacks + user API, any number '
+               'of slots / peripherals, any storage layout, from any master state) projects for every slot to such a peripheral history, so all '
+               'theorems hold per peripheral of every master history; C08_master_log_is_model / C08_master_log_faithful tie the per-slot log to '
+               'dp_tx_loop, to the bytes returned to the FDL layer and to the event left for take_last_events(). WIRE TRACE per peripheral = '
+               "requests (header, PDU), replies, time-outs, idle turns, events; accepted reply = the standard's view DpOracle.reply_accepted, proved "
+               'to be exactly what receive_reply accepts. THEOREMS: C08_first (the first request after start-up or after an Offline event - every '
+               'earlier request of the trace is followed by an Offline event - is a Slave_Diag request DSAP 60 / SSAP 62 with FCV=0/FCB=1, function '
+               'code 0x6C); C08_same_bit_only_retransmission (two consecutive requests - no request and no Offline event between - with the same '
+               'FCB: no accepted reply in between, same service, same destination, and the same function code byte, except that a probe of a '
+               'peripheral that is not live carries FCV=0/FCB=1 again, fix F18); C08_toggle_history (a request following an accepted reply has FCV=1 '
+               'and the FCB of the previous request negated); C08_retry_bound (in a stretch after a request without accepted reply, idle turn or '
+               'event at most max_retry further requests occur: <= 1+max_retry transmissions); C08_offline_when_exhausted (transmit_telegram raises '
+               'no event but Offline and only after a request stayed unanswered through exactly 1+max_retry transmissions) with the converse '
+               'C08_exhausted_then_offline (the next turn then neither sends nor idles); C08_offline_then_probes (after the Offline event until a '
+               'diagnostics reply is accepted: no further event - exactly one Offline -, every request is a payload-free Slave_Diag probe with 0x6C, '
+               'and the turn before each probe was idle: no probe is repeated in its turn, one per DP cycle); C08_invariant_step (the engine: every '
+               'call from every state satisfying the invariant) and C08_wire_monitor_accepts (the monitor as ONE predicate: ev_ok over the fold '
+               'ghost_of accepts every event of every history; the theorems above are its readings). Non-vacuity: C08_history_example, '
+               'C08_master_example (computed histories showing every clause). One-step theorems over all states kept: C08_first_offline, '
+               'C08_first_probe, C08_toggle_after_accept, C08_transmit_step.',
  'level_note': 'Trusted: Coq kernel, translator (gen/translate.py, gen/tr_dp.py), extraction + OCaml driver, Rust harness; hand model validated '
                'differentially, not verified.',
  'design_ref': 'DESIGN.md section 4, C08',
- 'assumptions': ['histories allowed by the FdlApplication contract (C15)',
-                 'bytes 0..255, addresses 0..125, max_retry_limit 1..15 (ParametersBuilder bounds)']}
+ 'assumptions': ['histories allowed by the FdlApplication contract (C15); peripherals added before the history starts',
+                 'max_retry_limit >= 1 (ParametersBuilder admits 1..15); runs that do not panic (panic freedom is C05)',
+                 'bytes 0..255, addresses 0..125'],
+ 'partial_gap': 'all planned C08 theorems are proved. Stated as coded: (a) "first request" after F18: besides the first request after start-up / an '
+                'Offline event, every probe that follows an unanswered probe of a peripheral that is not live carries FCV=0/FCB=1 again; the '
+                'property text allows it as a retransmission (same service and destination, no acceptable reply) and C08_offline_then_probes states '
+                'it; (b) after a parameter / configuration fault (internal offline state without Offline event, DESIGN 4.0) the first probe toggles '
+                'the bit, later probes are first requests, no Offline event is raised while not live; (c) "one probe per DP cycle" is stated per '
+                'peripheral as "the transmit_telegram turn before a probe was idle" - that DpMaster ends the peripheral\'s turn of the cycle on an '
+                "idle turn is visible in dp_tx_loop (increment_cycle) but the cycle count itself is C14's subject; (d) a retransmitted Data_Exchange "
+                'request repeats service, destination and function code but carries the CURRENT output image (the user may have written pi_q in '
+                'between). Not proved in Coq: that the executable oracle DpOracle.c08_monitor (which works on decoded transcripts) accepts every '
+                'model transcript - it mirrors the proved monitor and runs on every implementation transcript; dp_add during a running history is '
+                'outside the master-level theorem.'}
 
 PROPS["C14"] = {'claimed': True,
  'coq': 'Properties/C14.v',
